@@ -81,6 +81,11 @@ def fixtures(pane):
     Inner = type('Inner', (pane.PaneBase,), {'__annotations__': {'x': int}, '__module__': 'mc.generated'}, custom={int: times3})
     Outer = type('Outer', (pane.PaneBase,), {'__annotations__': {'inner': Inner, 'n': int}, '__module__': 'mc.generated'}, custom=h10)
     LONG = t.List[int]
+    def _fill(self):
+        self.items.append(self.n)           # the hook fills the (fresh) default container in place
+    Fac = type('Fac', (pane.PaneBase,), {'__annotations__': {'n': int, 'items': t.List[int]}, 'items': pane.field(default_factory=list),
+                                         '__post_init__': _fill, '__module__': 'mc.generated'}, in_format=('tuple', 'struct'))
+    _FIX.update(Fac=Fac)
     Ren = type('Ren', (pane.PaneBase,), {'__annotations__': {'my_field': int}, '__module__': 'mc.generated'}, rename='camel')
     _FIX.update(Ren=Ren)
     import decimal
@@ -122,8 +127,10 @@ KINDS: t.Dict[str, t.Callable[[t.Any], t.Any]] = {
     'list_union': lambda pane: fixtures(pane)['LUNION'],
     # a class whose input names are derived from a class-level rename style
     'ren_dc': lambda pane: fixtures(pane)['Ren'],
+    # a default container that every new instance must get for itself (the hook appends to it)
+    'fac_dc': lambda pane: fixtures(pane)['Fac'],
 }
-LONG_LIVED = ('long_list', 'inner_dc', 'outer_dc', 'union_lists', 'list_union', 'float_t', 'complex_t', 'ren_dc')
+LONG_LIVED = ('long_list', 'inner_dc', 'outer_dc', 'union_lists', 'list_union', 'float_t', 'complex_t', 'ren_dc', 'fac_dc')
 KIND_NAMES = list(KINDS)
 HFORMS = ['plain', 'map', 'callable', 'seq', 'smap_a', 'smap_b']     # smap_*: ONE shared dict object whose content is changed between calls
 # alphabets per tier: (kinds that may be BUILT, handler forms at inner levels); the last level always tries all four handler forms
@@ -625,10 +632,10 @@ def run_scenario(pane, sc, bound, res, only_prefix=None):
     return ex.violations
 
 
-VALSEQ_KINDS = ['union_lists', 'list_union', 'float_t', 'complex_t', 'inner_dc', 'long_list']
+VALSEQ_KINDS = ['union_lists', 'list_union', 'float_t', 'complex_t', 'inner_dc', 'long_list', 'fac_dc']
 
 
-HSEQ_KINDS = ['inner_dc', 'outer_dc', 'ren_dc']
+HSEQ_KINDS = ['inner_dc', 'outer_dc', 'ren_dc', 'fac_dc']
 
 
 def run_hseq(pane, res, kind, table, depth):
@@ -702,6 +709,7 @@ def plan(tier, seed):
     # handler set; what one of them consumed or cached must not be missing for the next)
     for k in HSEQ_KINDS:
         shards.append({'part': 'hseq', 'kind': k, 'table': [e for e in table if e[0][0] == k]})
+    shards.append({'part': 'readers'})
     scs = scenarios()
     # the expensive three-thread and make_converter scenarios first, one scenario per shard
     order = sorted(range(len(scs)), key=lambda i: (scs[i]['kind'] == 'keycache', scs[i].get('shape') != [3, 1]))
@@ -723,6 +731,11 @@ def run_shard(shard, tier):
     if shard['part'] == 'hseq':
         run_hseq(pane, res, shard['kind'], shard['table'], 3)
         return res
+    if shard['part'] == 'readers':
+        # sequences of the file readers on the same texts: what one does to shared state must not change what the next returns
+        from mc.checks import c19
+        c19.reader_histories(pane, res)
+        return res
     scs = scenarios()
     for i in range(shard['from'], shard['to']):
         sc = scs[i]
@@ -743,6 +756,8 @@ def replay(cell):
     pane = core.import_pane()
     warnings.simplefilter('ignore')
     res = core.new_result()
+    if cell.get('reader_histories') or cell.get('part') in ('valseq', 'hseq'):
+        return []          # (history-dependent by construction: confirmed by re-running the originating shard)
     if cell['part'] == 'hist':
         # re-run the shard's search (same allocation history as the original fresh worker) to the recorded depth
         run_hist(pane, res, cell['first'], cell['depth'], cell.get('tier', 'thorough'))
@@ -756,7 +771,7 @@ def replay(cell):
         if st.problem:
             return [{'sig': {'kind': 'history_dependent_result'}, 'msg': st.problem, 'cell': cell, 'cost': 0}]
         return []
-    if cell['part'] in ('valseq', 'hseq'):
+    if cell.get('reader_histories') or cell.get('part') in ('valseq', 'hseq'):
         return []          # (history-dependent by construction: confirmed by re-running the originating shard, see core.run_replay)
     sc = scenarios()[cell['scenario']]
     v = run_scenario(pane, sc, cell['bound'], res, only_prefix=cell['choices'])
